@@ -97,6 +97,8 @@ func (a asg) Assign(ctx context.Context, method string) jrpc2.Handler {
 			return tag, nil
 		case out == "err:plain":
 			return nil, errors.New("plain failure")
+		case out == "err:baddata": // an *Error that cannot be encoded as it stands
+			return nil, &jrpc2.Error{Code: 7, Message: "failed", Data: json.RawMessage(`{"bad":`)}
 		default:
 			n, _ := strconv.Atoi(strings.TrimPrefix(out, "err:"))
 			return nil, jrpc2.Errorf(jrpc2.Code(n), "failed")
